@@ -1,6 +1,5 @@
 import TsVerif.Common.IO
 import TsVerif.C20.Judge
-import TsVerif.C20.Format
 /-!
 Driver for C20.  Protocol (hex = UTF-8 bytes in hex, `-` = empty):
 ```
@@ -14,7 +13,7 @@ after1 <hex>
 after2 <hex>
 run
 ```
-A line `fixes <keepUnrun> <oneCorrection> <keepSuffixPreamble> <quoteReset>` (0/1 each) selects which proposed
+A line `fixes <keepUnrun> <oneCorrection> <keepSuffixPreamble> <quoteReset> <keepCstFiltered>` (0/1 each) selects which proposed
 repairs the model follows (default: none — the unchanged code).
 Answer: `<id> parse0=… parse1=… upd1=… upd2=… judge=ok|FAIL:<clauses> n0=… n1=… nt=…`.
 -/
@@ -49,6 +48,8 @@ structure St where
   ent0 : Array Entry := #[]
   ent1 : Array Entry := #[]
   wrote1 : Bool := false
+  filter : String := "n"
+  nms : List (Str × Bool) := []
   after1 : Str := []
   after2 : Str := []
 
@@ -87,16 +88,18 @@ def diffStr (a b : Str) : String :=
 
 def runCase (s : St) : String :=
   let orc := mkOracle s.acts
+  let raw : Str → Bool := fun n => ((s.nms.find? fun (n', _) => n' == n).map (·.2)).getD false
+  let flt : Str → Bool := fun n => if s.filter == "i" then raw n else if s.filter == "x" then !raw n else true
   let e0 := s.ent0.toList
   let e1 := s.ent1.toList
   let m0 := parseFile s.os s.orig
   let p0 := diffEntries m0 e0
   let p1 := diffEntries (parseFile s.os s.after1) e1
-  let u1 := updateFile s.fx s.os orc s.orig
+  let u1 := updateFileF s.fx s.os orc flt s.orig
   let c1 := diffStr u1 s.after1
-  let c2 := diffStr (updateFile s.fx s.os orc s.after1) s.after2
+  let c2 := diffStr (updateFileF s.fx s.os orc flt s.after1) s.after2
   let sexps := s.acts.foldr (fun (_, _, a) acc => if a.hasError then acc else a.sexpFields :: a.sexpPlain :: acc) []
-  let fails := judge { fx := s.fx, os := s.os, orig := s.orig, ent0 := e0, wrote1 := s.wrote1, after1 := s.after1,
+  let fails := judge { fx := s.fx, flt := flt, os := s.os, orig := s.orig, ent0 := e0, wrote1 := s.wrote1, after1 := s.after1,
                        ent1 := e1, after2 := s.after2, orc := orc, sexps := sexps }
   let j := if fails.isEmpty then "ok" else "FAIL:" ++ ",".intercalate fails
   -- non-triviality data, measured on the real entries
@@ -108,12 +111,13 @@ def runCase (s : St) : String :=
   let quoted := (e0 ++ e1).any fun e => (e.output.filter fun c => c == '\'' || c == '"').length ≥ 2
   let sxIn := (sexps.filter inFormatClass).length
   let model := if c1 == "ok" then "" else s!" model1={hexOf u1}"
-  s!"{s.id} parse0={p0} parse1={p1} upd1={c1} upd2={c2} judge={j} n0={e0.length} n1={e1.length} attrs={attrs} wrong={wrong} delimlike={delimLike} suffixed={if (firstSuffix (splitIncl s.orig)).isSome then 1 else 0} wrote={if s.wrote1 then 1 else 0} wf={if wf then 1 else 0} sx={sexps.length} sxclass={sxIn} quoted={if quoted then 1 else 0} crlf={if s.orig.contains '\r' then 1 else 0} bytes={s.orig.length}{model}"
+  s!"{s.id} parse0={p0} parse1={p1} upd1={c1} upd2={c2} judge={j} n0={e0.length} n1={e1.length} attrs={attrs} wrong={wrong} delimlike={delimLike} suffixed={if (firstSuffix (splitIncl s.orig)).isSome then 1 else 0} wrote={if s.wrote1 then 1 else 0} filter={s.filter} carried={(e0.filter fun e => !flt e.name).length} carriedcst={(e0.filter fun e => !flt e.name && e.attrs.cst).length} wf={if wf then 1 else 0} sx={sexps.length} sxclass={sxIn} quoted={if quoted then 1 else 0} crlf={if s.orig.contains '\r' then 1 else 0} bytes={s.orig.length}{model}"
 
 def step (s : St) (line : String) : IO St := do
   match line.splitOn " " with
-  | ["fixes", a, b, c, d] =>
-    return { s with fx := { keepUnrun := a == "1", oneCorrection := b == "1", keepSuffixPreamble := c == "1", quoteReset := d == "1" } }
+  | ["fixes", a, b, c, d, e] =>
+    return { s with fx := { keepUnrun := a == "1", oneCorrection := b == "1", keepSuffixPreamble := c == "1", quoteReset := d == "1",
+                            keepCstFiltered := e == "1" } }
   | ["case", id] => return { fx := s.fx, id := id }
   | ["os", h] => return { s with os := unhexStr h }
   | ["orig", h] => return { s with orig := unhexStr h }
@@ -121,6 +125,8 @@ def step (s : St) (line : String) : IO St := do
     return { s with acts := s.acts ++ [(unhexStr l, unhexStr i, { sexpFields := unhexStr sf, sexpPlain := unhexStr sp, cst := unhexStr c, hasError := he == "1" })] }
   | "ent0" :: ws => return (match parseEntry ws with | some e => { s with ent0 := s.ent0.push e } | none => s)
   | "ent1" :: ws => return (match parseEntry ws with | some e => { s with ent1 := s.ent1.push e } | none => s)
+  | ["filter", f] => return { s with filter := f }
+  | ["nm", n, b] => return { s with nms := s.nms ++ [(unhexStr n, b == "1")] }
   | ["wrote1", b] => return { s with wrote1 := b == "1" }
   | ["after1", h] => return { s with after1 := unhexStr h }
   | ["after2", h] => return { s with after2 := unhexStr h }
